@@ -105,7 +105,7 @@ func (g *gen) sets(errOdds, legacyOdds, noSetOdds int) [][]*matcher {
 }
 
 type shape struct {
-	errOdds, failOdds, subOdds, subErrOdds, termOdds, groupOdds, rewriteOdds, noSetOdds, legacyOdds int
+	errOdds, failOdds, subOdds, subErrOdds, termOdds, groupOdds, rewriteOdds, noSetOdds, legacyOdds, realOdds int
 }
 
 func (g *gen) handlers(depth int, sh shape) []*handler {
@@ -126,7 +126,14 @@ func (g *gen) handlers(depth int, sh shape) []*handler {
 			}
 			hs = append(hs, h)
 		case x < sh.subOdds+sh.failOdds:
-			hs = append(hs, &handler{kind: 'f', id: g.id(), arg: errStatuses[g.rng.Intn(len(errStatuses))]})
+			switch y := g.rng.Intn(100); {
+			case y < sh.realOdds/2:
+				hs = append(hs, &handler{kind: 'x', arg: g.src(400)})
+			case y < sh.realOdds:
+				hs = append(hs, &handler{kind: 'y', arg: g.src(200)})
+			default:
+				hs = append(hs, &handler{kind: 'f', id: g.id(), arg: errStatuses[g.rng.Intn(len(errStatuses))]})
+			}
 		case x < sh.subOdds+sh.failOdds+12:
 			hs = append(hs, &handler{kind: 'r', id: g.id(), arg: okStatuses[g.rng.Intn(len(okStatuses))]})
 		case x < sh.subOdds+sh.failOdds+12+sh.rewriteOdds:
@@ -164,8 +171,8 @@ func (g *gen) tree(tier string) (rs []*route, hasErrs bool, errs []*route) {
 	if tier != "quick" {
 		g.budget = 10 + g.rng.Intn(40)
 	}
-	sh := shape{errOdds: 4, failOdds: 12, subOdds: 18, subErrOdds: 30, termOdds: 18, groupOdds: 35, rewriteOdds: 18, noSetOdds: 40, legacyOdds: 5}
-	switch g.rng.Intn(8) {
+	sh := shape{errOdds: 4, failOdds: 12, subOdds: 18, subErrOdds: 30, termOdds: 18, groupOdds: 35, rewriteOdds: 18, noSetOdds: 40, legacyOdds: 5, realOdds: 30}
+	switch g.rng.Intn(9) {
 	case 0: // no failures at all: routing proper
 		sh.errOdds, sh.failOdds = 0, 0
 	case 1: // error-heavy
@@ -176,6 +183,8 @@ func (g *gen) tree(tier string) (rs []*route, hasErrs bool, errs []*route) {
 		sh.groupOdds, sh.termOdds = 70, 35
 	case 4: // rewrite, then fail: the error routes must see the original URI
 		sh.rewriteOdds, sh.failOdds, sh.noSetOdds = 35, 20, 60
+	case 6: // the error path as deployed: real error / static_response handlers driven by the error placeholders
+		sh.failOdds, sh.realOdds, sh.subErrOdds, sh.noSetOdds = 30, 75, 50, 60
 	case 5: // error matchers next to legacy (RequestMatcher-only) matchers
 		sh.errOdds, sh.legacyOdds, sh.noSetOdds = 12, 30, 15
 	}
@@ -190,6 +199,19 @@ func (g *gen) tree(tier string) (rs []*route, hasErrs bool, errs []*route) {
 		errs = g.routes(0, 3, sh)
 	}
 	return
+}
+
+// src draws a status source for the real handlers: none, the error placeholder, text, a number.
+func (g *gen) src(lo int) int {
+	switch g.rng.Intn(10) {
+	case 0, 1:
+		return 0
+	case 2, 3, 4, 5:
+		return 1
+	case 6:
+		return 2
+	}
+	return []int{lo, 404, 500, 503}[g.rng.Intn(4)]
 }
 
 func (g *gen) request() request {
